@@ -128,3 +128,119 @@ Proof.
   apply (Qmult_inj_l _ _ s Hs). exact R.
 Qed.
 End Unique.
+
+(* ------------------------------------------------------------------ generalised-inverse judge cov_ok_g *)
+Lemma combine_map_map {A B C} (f : A -> B) (g : A -> C) l : combine (map f l) (map g l) = map (fun x => (f x, g x)) l.
+Proof. induction l as [|a l IH]; simpl; [reflexivity|]. rewrite IH. reflexivity. Qed.
+Lemma ddotl_ok {A} (f g : A -> D) (l : list A) : D2Q (ddotl (map f l) (map g l)) == sumQ (fun x => D2Q (f x) * D2Q (g x)) l.
+Proof.
+  unfold ddotl. rewrite combine_map_map, map_map, dsum_map_ok. apply sumQ_ext; [|reflexivity]. intros x. simpl. rewrite dmul_ok. reflexivity.
+Qed.
+
+(* (N C N)_ab written with N_mb = N_bm, and its entry-wise absolute counterpart *)
+Definition NCNq (rows : list drow) (cols : list param) (cov : param -> param -> D) (a b : param) : Q :=
+  sumQ (fun m => NCq rows cols cov a m * Nq (map qrow rows) b m) cols.
+Definition NCNabsq (rows : list drow) (cols : list param) (cov : param -> param -> D) (a b : param) : Q :=
+  sumQ (fun m => sumQ (fun l => Qabs (Nq (map qrow rows) a l) * Qabs (D2Q (cov l m))) cols * Qabs (Nq (map qrow rows) b m)) cols.
+
+Lemma dNCvec_entry rows cols cov a m : D2Q (ddotl (dNvec rows cols a) (dCcol cols cov m)) == NCq rows cols cov a m.
+Proof. unfold dNvec, dCcol, NCq. rewrite ddotl_ok. apply sumQ_ext; [|reflexivity]. intros l. rewrite dN_ok. reflexivity. Qed.
+Lemma dNCN_ok rows cols cov a b :
+  D2Q (ddotl (dNCvec cols cov (dNvec rows cols a)) (dNvec rows cols b)) == NCNq rows cols cov a b.
+Proof.
+  unfold dNCvec, NCNq. unfold dNvec at 2. rewrite ddotl_ok. apply sumQ_ext; [|reflexivity]. intros m.
+  rewrite dNCvec_entry, dN_ok. reflexivity.
+Qed.
+Lemma dNCNabs_ok rows cols cov a b :
+  D2Q (ddotl (dNCvec cols (fun x y => dabs (cov x y)) (map dabs (dNvec rows cols a))) (map dabs (dNvec rows cols b))) == NCNabsq rows cols cov a b.
+Proof.
+  unfold dNCvec, NCNabsq, dNvec. rewrite !map_map, ddotl_ok. apply sumQ_ext; [|reflexivity]. intros m.
+  rewrite dabs_ok, dN_ok. unfold dCcol. rewrite ddotl_ok.
+  assert (E: sumQ (fun x => D2Q (dabs (dN rows a x)) * D2Q (dabs (cov x m))) cols ==
+             sumQ (fun l => Qabs (Nq (map qrow rows) a l) * Qabs (D2Q (cov l m))) cols).
+  { apply sumQ_ext; [|reflexivity]. intros l. rewrite !dabs_ok, dN_ok. reflexivity. }
+  rewrite E. reflexivity.
+Qed.
+
+Ltac dq2 H := repeat (first [rewrite dadd_ok in H | rewrite dmul_ok in H | rewrite dsub_ok in H | rewrite dabs_ok in H | rewrite dpow2_ok in H
+  | rewrite dNCN_ok in H | rewrite dNCNabs_ok in H | rewrite dN_ok in H | rewrite dSSR_ok in H | rewrite D2Q_Z in H]).
+
+Lemma cov_ok_g_sound e ef rows p cols cov : cov_ok_g e ef rows p cols cov = true ->
+  let dof := inject_Z (Z.of_nat (length rows) - Z.of_nat (length cols)) in
+  let ssr := S (map qrow rows) (qpar p) in
+  0 < dof /\
+  forall a b, In a cols -> In b cols ->
+    Qabs (dof * NCNq rows cols cov a b - ssr * Nq (map qrow rows) a b) <=
+      Qpower 2 e * (dof * NCNabsq rows cols cov a b + ssr * Qabs (Nq (map qrow rows) a b))
+      + Qpower 2 ef * (D2Q (dY2 rows p) * Qabs (Nq (map qrow rows) a b))
+      + Qpower 2 (-40) * (ssr * D2Q (dnmax rows cols)).
+Proof.
+  unfold cov_ok_g. rewrite andb_true_iff. intros [Hd Hc]. cbv zeta. split.
+  - apply Z.ltb_lt in Hd. simpl in Hd. rewrite Zlt_Qlt in Hd. exact Hd.
+  - intros a b Ha Hb. rewrite forallb_forall in Hc.
+    specialize (Hc (a, dNvec rows cols a)). cbn [fst snd] in Hc.
+    assert (Ia: In (a, dNvec rows cols a) (map (fun a0 => (a0, dNvec rows cols a0)) cols)) by (apply in_map_iff; exists a; auto).
+    specialize (Hc Ia). rewrite forallb_forall in Hc.
+    specialize (Hc (b, dNvec rows cols b)). cbn [fst snd] in Hc.
+    assert (Ib: In (b, dNvec rows cols b) (map (fun a0 => (a0, dNvec rows cols a0)) cols)) by (apply in_map_iff; exists b; auto).
+    specialize (Hc Ib). apply dle_ok in Hc. dq2 Hc. exact Hc.
+Qed.
+
+(* meaning in the exact limit: if N*C*N = s*N, the quadratic form J'CJ of every ESTIMABLE functional J = N z is s * z'Nz, whatever
+   generalised inverse C was returned - e.g. the variance of the fitted values and of the calibrated temperatures at reference locations *)
+Section Estimable.
+Variable A : Type.
+Variable cols : list A.
+Variables (N C : A -> A -> Q) (s : Q).
+Hypothesis Nsym : forall a b, N a b == N b a.
+Definition dotq (u v : A -> Q) : Q := sumQ (fun a => u a * v a) cols.
+Definition mv (M : A -> A -> Q) (z : A -> Q) (a : A) : Q := sumQ (fun m => M a m * z m) cols.
+(* the judged form of (N C N)_ab *)
+Definition ncnJ (a b : A) : Q := sumQ (fun m => sumQ (fun l => N a l * C l m) cols * N b m) cols.
+Hypothesis identity : forall a b, In a cols -> In b cols -> ncnJ a b == s * N a b.
+
+Lemma sumQ_scal_r {B} (c : Q) (f : B -> Q) l : sumQ f l * c == sumQ (fun a => f a * c) l.
+Proof. rewrite Qmult_comm, <- sumQ_scal. apply sumQ_ext; [|reflexivity]. intros a. ring. Qed.
+
+Lemma dot_mv_sym z w : dotq (mv N z) w == dotq z (mv N w).
+Proof.
+  unfold dotq, mv.
+  transitivity (sumQ (fun a => sumQ (fun m => N a m * z m * w a) cols) cols).
+  - apply sumQ_ext; [|reflexivity]. intros a. apply sumQ_scal_r.
+  - rewrite sumQ_swap. apply sumQ_ext; [|reflexivity]. intros m. rewrite <- sumQ_scal.
+    apply sumQ_ext; [|reflexivity]. intros a. rewrite (Nsym a m). ring.
+Qed.
+
+Lemma mv3 z a : mv N (mv C (mv N z)) a == sumQ (fun k => ncnJ a k * z k) cols.
+Proof.
+  unfold mv, ncnJ.
+  (* sum_l N_al (sum_m C_lm (sum_k N_mk z_k)) = sum_l sum_m sum_k ... *)
+  transitivity (sumQ (fun l => sumQ (fun m => sumQ (fun k => N a l * C l m * N m k * z k) cols) cols) cols).
+  - apply sumQ_ext; [|reflexivity]. intros l. rewrite <- sumQ_scal. apply sumQ_ext; [|reflexivity]. intros m.
+    transitivity (N a l * C l m * sumQ (fun k => N m k * z k) cols); [ring|].
+    rewrite <- sumQ_scal. apply sumQ_ext; [|reflexivity]. intros k. ring.
+  - (* bring k outside: swap (m,k) inside l, then (l,k) *)
+    transitivity (sumQ (fun l => sumQ (fun k => sumQ (fun m => N a l * C l m * N m k * z k) cols) cols) cols).
+    { apply sumQ_ext; [|reflexivity]. intros l. apply sumQ_swap. }
+    rewrite sumQ_swap. apply sumQ_ext; [|reflexivity]. intros k.
+    (* sum_l sum_m N_al C_lm N_mk z_k = (sum_m (sum_l N_al C_lm) N_km) z_k *)
+    rewrite sumQ_swap.
+    transitivity (sumQ (fun m => sumQ (fun l => N a l * C l m) cols * N k m * z k) cols).
+    + apply sumQ_ext; [|reflexivity]. intros m.
+      transitivity (sumQ (fun l => N a l * C l m) cols * (N k m * z k)); [|ring].
+      rewrite sumQ_scal_r. apply sumQ_ext; [|reflexivity]. intros l. rewrite (Nsym m k). ring.
+    + symmetry. apply sumQ_scal_r.
+Qed.
+
+Theorem estimable_variance_is_determined (z : A -> Q) :
+  dotq (mv N z) (mv C (mv N z)) == s * dotq z (mv N z).
+Proof.
+  rewrite dot_mv_sym. unfold dotq at 1.
+  transitivity (sumQ (fun a => z a * (s * mv N z a)) cols).
+  - apply sumQ_ext_in. intros a Ha. rewrite mv3.
+    assert (E: sumQ (fun k => ncnJ a k * z k) cols == s * mv N z a).
+    { unfold mv at 1. rewrite <- sumQ_scal. apply sumQ_ext_in. intros k Hk. rewrite (identity a k Ha Hk). ring. }
+    rewrite E. reflexivity.
+  - unfold dotq. rewrite <- sumQ_scal. apply sumQ_ext; [|reflexivity]. intros a. ring.
+Qed.
+End Estimable.
